@@ -46,12 +46,12 @@ def run(ck):
           "distinguishes (ASSUME ContractTotal)")
     t1 = os.path.join(ck.tdir, "api_dbg.ndjson")
     run_api(ck, "dbg", 200000 if q else 3000000, ck.seed, t1)
-    ck.trace("api-dbg", "Trace_Api", "Trace.cfg", t1, nchunks=48, balance=True,
+    ck.trace("api-dbg", "Trace_Api", "Trace.cfg", t1, nchunks=16, balance=True,
              what="all exported functions on arbitrary words / ints / doubles / polygons / cell sets and short call sequences, "
                   "-UNDEBUG build (assert, NEVER, ALWAYS live; an abort is an unconsumable event), guarded exact-size buffers")
     t2 = os.path.join(ck.tdir, "api_asan.ndjson")
     run_api(ck, "asan", 40000 if q else 1500000, ck.seed + 1, t2)
-    ck.trace("api-asan", "Trace_Api", "Trace.cfg", t2, nchunks=48, balance=True,
+    ck.trace("api-asan", "Trace_Api", "Trace.cfg", t2, nchunks=16, balance=True,
              what="same driver under clang AddressSanitizer + UndefinedBehaviorSanitizer (a report is an unconsumable Crash event)")
     ck.ev.assumptions += ["TLC 1.8 / JVM", "memory safety / undefined behaviour are observed by ASan/UBSan and by canaries around every "
                           "output buffer (DESIGN 6): TLA+ decides the return-code contract and the absence of Abort/Crash events",
